@@ -226,6 +226,11 @@ def adfStep (a : AdfSt) (l : String) (ws : List String) : Option (List String ×
       let decl := if sort == "none" && order != perm.filter (· < a.n) then "differs" else "ok"
       some ([l, s!"~ {orderCheck a.n sort perm (labels.splitOn ",") order}", s!"= declaration-order {decl}"], a)
     | _, _ => some ([l, "~ bad-request"], a)
+  | ["randrepro", _, _, mode, _] =>
+    -- StdRng is not modelled: the specification only says that a seeded random search is
+    -- reproducible (same object twice, and a twin) and returns the prescribed set
+    let spec := specAnswer (if mode == "stable" then "stable" else "twoval") a.n a.tts
+    some ([l, s!"~ reproducible same-object=1 twin=1 set={spec}"], a)
   | ["adf", n] =>
     let n := n.toNat?.getD 0
     some ([l], { n := n, fms := Array.replicate n Fm.bot, pipes := [] })
